@@ -48,6 +48,8 @@ pub enum Kind {
     /// count-based window of `size`, threshold 1/2, `permitted` trials, wait 30ms; the prologue
     /// (run by one thread before the others start) fails `size` calls and lets the wait elapse
     Breaker { size: u32, permitted: u32, time_based: bool },
+    /// bulkhead with more slots than threads and no wait limit: everybody is admitted at once
+    Bulkhead { max: u32 },
     /// coalesce over `keys` keys (nobody is cancelled, nothing panics)
     Coalesce { keys: u32 },
     /// adaptive limiter with a fixed limit (min = initial = max) that no thread count reaches
@@ -59,6 +61,10 @@ pub struct ScnT {
     pub kind: Kind,
     pub threads: Vec<Vec<TOp>>,
     pub pct_depth: u32,
+    /// no tokio runtime is even entered (a foreign executor, or a runtime built without its
+    /// time driver): paths that never wait must not need a timer. No Advance operations then.
+    #[serde(default)]
+    pub no_runtime: bool,
 }
 
 const WAIT_MS: u64 = 30;
@@ -74,7 +80,10 @@ pub fn gen_rl(rng: &mut Rng) -> ScnT {
                 .collect()
         })
         .collect();
-    ScnT { kind: Kind::RateLimiter { window: rng.below(3) as u8, limit: rng.range(1, 3) as u32, period_ms }, threads, pct_depth: *rng.pick(&[0u32, 0, 2, 3]) }
+    let threads: Vec<Vec<TOp>> = threads;
+    let no_runtime = rng.chance(1, 3);
+    let threads = if no_runtime { threads.into_iter().map(|t| t.into_iter().map(|_| TOp::Call { key: 0, err: false }).collect()).collect() } else { threads };
+    ScnT { kind: Kind::RateLimiter { window: rng.below(3) as u8, limit: rng.range(1, 3) as u32, period_ms: if no_runtime { 3_600_000 } else { period_ms } }, threads, pct_depth: *rng.pick(&[0u32, 0, 2, 3]), no_runtime }
 }
 
 pub fn gen_cache(rng: &mut Rng) -> ScnT {
@@ -86,7 +95,7 @@ pub fn gen_cache(rng: &mut Rng) -> ScnT {
             (0..n).map(|_| if rng.chance(1, 4) { TOp::Advance(*rng.pick(&[ttl_ms, ttl_ms, ttl_ms + 1, 5])) } else { TOp::Call { key: rng.range(1, 2) as u32, err: rng.chance(1, 8) } }).collect()
         })
         .collect();
-    ScnT { kind: Kind::Cache { policy: rng.below(3) as u8, ttl_ms }, threads, pct_depth: *rng.pick(&[0u32, 0, 2, 3]) }
+    ScnT { kind: Kind::Cache { policy: rng.below(3) as u8, ttl_ms }, threads, pct_depth: *rng.pick(&[0u32, 0, 2, 3]), no_runtime: false }
 }
 
 pub fn gen_cb(rng: &mut Rng) -> ScnT {
@@ -97,7 +106,7 @@ pub fn gen_cb(rng: &mut Rng) -> ScnT {
             (0..n).map(|_| if rng.chance(1, 6) { TOp::Advance(*rng.pick(&[WAIT_MS, 5])) } else { TOp::Call { key: 0, err: rng.chance(1, 3) } }).collect()
         })
         .collect();
-    ScnT { kind: Kind::Breaker { size: rng.range(1, 3) as u32, permitted: rng.range(1, 2) as u32, time_based: rng.chance(1, 3) }, threads, pct_depth: *rng.pick(&[0u32, 0, 2, 3]) }
+    ScnT { kind: Kind::Breaker { size: rng.range(1, 3) as u32, permitted: rng.range(1, 2) as u32, time_based: rng.chance(1, 3) }, threads, pct_depth: *rng.pick(&[0u32, 0, 2, 3]), no_runtime: false }
 }
 
 /// Is this scenario (JSON) one of ours? (the task scenarios have no `kind`)
@@ -113,20 +122,29 @@ pub fn run_json(v: &serde_json::Value, ctx: &mut RunCtx, prefix: &'static str) -
     run(&parse::<ScnT>(v).unwrap(), ctx, prefix)
 }
 
+pub fn gen_bulkhead(rng: &mut Rng) -> ScnT {
+    let nt = rng.range(2, 3) as usize;
+    let threads = (0..nt).map(|_| (0..rng.range(1, 4)).map(|_| TOp::Call { key: 0, err: rng.chance(1, 5) }).collect()).collect();
+    ScnT { kind: Kind::Bulkhead { max: nt as u32 + rng.range(0, 2) as u32 }, threads, pct_depth: *rng.pick(&[0u32, 0, 2]), no_runtime: rng.chance(1, 2) }
+}
+
 pub fn gen_coalesce(rng: &mut Rng) -> ScnT {
     let keys = rng.range(1, 2) as u32;
     let nt = rng.range(2, 4) as usize;
     let threads = (0..nt).map(|_| (0..rng.range(1, 4)).map(|_| TOp::Call { key: rng.range(1, keys as u64) as u32, err: rng.chance(1, 5) }).collect()).collect();
-    ScnT { kind: Kind::Coalesce { keys }, threads, pct_depth: *rng.pick(&[0u32, 0, 2, 3]) }
+    ScnT { kind: Kind::Coalesce { keys }, threads, pct_depth: *rng.pick(&[0u32, 0, 2, 3]), no_runtime: false }
 }
 
 pub fn gen_adaptive(rng: &mut Rng) -> ScnT {
     let nt = rng.range(2, 3) as usize;
     let threads = (0..nt).map(|_| (0..rng.range(1, 5)).map(|_| TOp::Call { key: 0, err: rng.chance(1, 4) }).collect()).collect();
-    ScnT { kind: Kind::Adaptive { limit: nt as u32 + rng.range(0, 2) as u32 }, threads, pct_depth: *rng.pick(&[0u32, 0, 2, 3]) }
+    ScnT { kind: Kind::Adaptive { limit: nt as u32 + rng.range(0, 2) as u32 }, threads, pct_depth: *rng.pick(&[0u32, 0, 2, 3]), no_runtime: false }
 }
 
 pub fn valid(s: &ScnT) -> bool {
+    if s.no_runtime && (s.threads.iter().flatten().any(|o| matches!(o, TOp::Advance(_))) || matches!(s.kind, Kind::Breaker { .. } | Kind::Cache { .. })) {
+        return false;
+    }
     let shape = !s.threads.is_empty() && s.threads.len() <= 4 && s.threads.iter().all(|t| t.len() <= 8) && s.pct_depth <= 5;
     let ops = s.threads.iter().flatten().all(|o| match o {
         TOp::Call { key, .. } => *key <= 4,
@@ -135,9 +153,10 @@ pub fn valid(s: &ScnT) -> bool {
     shape
         && ops
         && match &s.kind {
-            Kind::RateLimiter { window, limit, period_ms } => *window <= 2 && *limit >= 1 && *limit <= 4 && *period_ms >= 10 && *period_ms <= 100,
+            Kind::RateLimiter { window, limit, period_ms } => *window <= 2 && *limit >= 1 && *limit <= 4 && *period_ms >= 10 && (*period_ms <= 100 || (s.no_runtime && *period_ms == 3_600_000)),
             Kind::Cache { policy, ttl_ms } => *policy <= 2 && *ttl_ms >= 5 && *ttl_ms <= 100,
             Kind::Breaker { size, permitted, .. } => *size >= 1 && *size <= 4 && *permitted >= 1 && *permitted <= 3,
+            Kind::Bulkhead { max } => *max as usize >= s.threads.len() && *max <= 8 && s.threads.iter().flatten().all(|o| matches!(o, TOp::Call { .. })),
             Kind::Coalesce { keys } => *keys >= 1 && *keys <= 3 && s.threads.iter().flatten().all(|o| matches!(o, TOp::Call { key, .. } if *key >= 1 && key <= keys)),
             Kind::Adaptive { limit } => *limit as usize >= s.threads.len() && *limit <= 8 && s.threads.iter().flatten().all(|o| matches!(o, TOp::Call { .. })),
         }
@@ -189,9 +208,14 @@ pub fn run(s: &ScnT, ctx: &mut RunCtx, prefix: &'static str) -> RunOutput {
     world::reset();
     let scn = s.clone();
     let out = run_shuttle_unit(ctx.rt_seed, s.pct_depth, move || {
-        let rt = tokio::runtime::Builder::new_current_thread().enable_time().start_paused(true).build().expect("runtime");
-        let _g = rt.enter();
+        let rt = if scn.no_runtime { None } else { Some(tokio::runtime::Builder::new_current_thread().enable_time().start_paused(true).build().expect("runtime")) };
+        let _g = rt.as_ref().map(|r| r.enter());
         world::with(|w| {
+            if scn.no_runtime {
+                // no virtual clock: every event is stamped 0 (the real clock must not leak into the log)
+                w.ended = true;
+                w.end_us = 0;
+            }
             w.t0 = Some(tokio::time::Instant::now());
             w.script.default = Behaviour { lat_ms: 0, out: Outcome::Ok, yields: 0 };
         });
@@ -316,6 +340,19 @@ pub fn run(s: &ScnT, ctx: &mut RunCtx, prefix: &'static str) -> RunOutput {
                     })
                 });
             }
+            Kind::Bulkhead { max } => {
+                use tower_resilience_bulkhead::BulkheadLayer;
+                let base = BulkheadLayer::builder().max_concurrent_calls(max as usize).build().layer(SimInner::new(0));
+                spawn_all(&scn, move || {
+                    let mut svc = base.clone();
+                    Box::new(move |id: u32, _key: u32| {
+                        if let Some(Ok(())) = drive(std::future::poll_fn(|cx| svc.poll_ready(cx)), 50) {
+                            let r = drive(svc.call(Req { id, key: 0 }), 200);
+                            world::note("t_result", id as i64, if r.is_some() { 0 } else { 4 });
+                        }
+                    })
+                });
+            }
             Kind::Coalesce { .. } => {
                 use tower_resilience_coalesce::{CoalesceError, CoalesceLayer};
                 let base = CoalesceLayer::new(|r: &Req| CKey(r.key)).layer(SimInner::new(0));
@@ -361,6 +398,7 @@ pub fn run(s: &ScnT, ctx: &mut RunCtx, prefix: &'static str) -> RunOutput {
         tower_resilience_core::verif::set_async_yield_hook(None);
         drop(_g);
         drop(rt);
+        world::with(|w| w.ended = false);
     });
     tower_resilience_core::verif::set_async_yield_hook(None);
     // ---- history checks
@@ -420,6 +458,20 @@ pub fn run(s: &ScnT, ctx: &mut RunCtx, prefix: &'static str) -> RunOutput {
                 if !calls.iter().any(|c| c.key == key as u32 && c.serial as i64 == ser) {
                     push("C10.hit_value", "threads", format!("a hit for key {} returned serial {} which no call for that key produced", key, ser));
                 }
+            }
+        }
+        Kind::Bulkhead { max } => {
+            for (_, id, code) in notes(&log, "t_result") {
+                if code == 4 {
+                    push("C07.admit_at_once", "threads", format!("request {} was not admitted although at most {} of {} slots can be in use", id, s.threads.len(), max));
+                }
+            }
+            let expected: usize = s.threads.iter().map(|t| t.len()).sum();
+            if out.panic.is_none() && calls.len() != expected {
+                push("C07.admit_at_once", "threads", format!("{} of {} requests reached the inner service", calls.len(), expected));
+            }
+            if world::with(|w| w.max_in_flight[0]) > *max as i64 {
+                push("C01.in_flight_le_max", "threads", format!("peak in-flight {} > max {}", world::with(|w| w.max_in_flight[0]), max));
             }
         }
         Kind::Coalesce { .. } => {
